@@ -6,6 +6,7 @@ package main
 
 import (
 	"fmt"
+	"go/token"
 	"go/types"
 	"math"
 	"reflect"
@@ -108,6 +109,14 @@ func init() {
 			return tuple{v, true}
 		}
 		return tuple{iface{}, false}
+	})
+	vf("vfOpaqueDate", func(m *Machine, fr *frame, a []value) value {
+		// an opaque, arbitrary text: time.Parse on it is an uninterpreted function
+		return opaqueMarker + a[0].(string) + "\x00"
+	})
+	vf("vfParsedUnix", func(m *Machine, fr *frame, a []value) value {
+		unix, ok := m.timeParseUF(a[1].(string), a[0].(string))
+		return tuple{unix, ok}
 	})
 	vf("vfSharedMutable", func(m *Machine, fr *frame, a []value) value {
 		return m.sharedMutable(a[0], a[1])
@@ -825,9 +834,36 @@ func (m *Machine) sortSlice(fr *frame, x iface, less value, stable bool) value {
 // time.Parse: native for concrete arguments; an uninterpreted function pair
 // for symbolic text.
 
+const opaqueMarker = "\x00OPAQUE:"
+
+// timeParseUF returns the uninterpreted results (unix seconds, ok) of parsing
+// the opaque text `name` with `layout`: one pair of solver variables per
+// (layout, text), so equal arguments give equal results and nothing else is known.
+func (m *Machine) timeParseUF(layout, name string) (value, value) {
+	m.stubsUsed["time.Parse on an opaque text → uninterpreted (ok, unix seconds) per (layout, text)"]++
+	get := func(kind, k string, s Sort) value {
+		n := "timeparse." + kind + "|" + layout + "|" + name
+		if t, ok := m.inputByName[n]; ok && t != nil {
+			return t
+		}
+		return m.newInput(n, k, s)
+	}
+	return get("unix", "int64", BV(64)), get("ok", "bool", BoolSort)
+}
+
 func (m *Machine) timeParse(layout, s value) value {
 	ls, lok := layout.(string)
 	ss, sok := s.(string)
+	if lok && sok && strings.HasPrefix(ss, opaqueMarker) {
+		name := strings.TrimSuffix(strings.TrimPrefix(ss, opaqueMarker), "\x00")
+		unix, ok := m.timeParseUF(ls, name)
+		if !m.truth(ok) {
+			return tuple{zeroTime(), m.newError("parsing time: opaque text does not match layout")}
+		}
+		const unixToInternal = int64((1969*365 + 1969/4 - 1969/100 + 1969/400) * 86400)
+		ext := m.binop(token.ADD, types.Typ[types.Int64], types.Typ[types.Int64], unix, unixToInternal)
+		return tuple{structure{uint64(0), ext, (*value)(nil)}, iface{}}
+	}
 	if lok && sok {
 		t, err := time.Parse(ls, ss)
 		if err != nil {
